@@ -234,22 +234,29 @@ def unwinder_semantics(ctx, run):
     good = False
     detail = "no comparison of a frame's id with the target label inside the frame loop"
     compiles = [c for c in fn.calls_in(body) if short(c.callee) in ("compile_expr", "compile_expr_with_args")]
+    inner = [(h2, b2) for h2, b2 in fn.loops() if h2 != h and h2 in body]
+    pops = [c for c in fn.calls_in(body) if short(c.callee) == "pop"]
     for c in stops:
-        # the switch on the comparison result: the `true` side must leave the loop before any defer of that frame is compiled
+        # the frame whose id equals the label is the LAST one whose defers are run: the loop over that frame's defers comes first in
+        # the iteration (its header dominates the comparison), the `true` side leaves the frame loop without popping the frame,
+        # the `false` side pops it and goes on
         for i in body:
             t = fn.blocks[i]["t"]
             if t["k"] == "switch" and (t["o"].get("c") or t["o"].get("m") or [None])[0] in (c.dest or []):
                 vals, tg = t["vals"], t["t"]
                 true_side = tg[vals.index("1")] if "1" in vals else tg[-1]
                 false_side = tg[vals.index("0")] if "0" in vals else tg[-1]
-                leaves = not any(fn.can_reach(true_side, cc.bb, avoid=[h]) or true_side == cc.bb for cc in compiles)
-                stays = any(fn.can_reach(false_side, cc.bb, avoid=[h]) or false_side == cc.bb for cc in compiles)
-                if leaves and stays:
+                ran_first = any(any(cc.bb in b2 for cc in compiles) and fn.dominates(h2, c.bb) for h2, b2 in inner)
+                leaves = not any(fn.can_reach(true_side, x.bb, avoid=[h]) or true_side == x.bb for x in compiles + pops)
+                goes_on = any(fn.can_reach(false_side, x.bb, avoid=[h]) or false_side == x.bb for x in pops)
+                if ran_first and leaves and goes_on:
                     good = True
                 else:
-                    detail = "the comparison at line %d does not make the equal case leave the loop before the frame's defers are compiled" % c.ln
-    run.check(good, "%s:%d" % (fn.file, stops[0].ln if stops else fn.lo), "unwinder stops, without running it, at the frame whose id equals the target label", U, "stop-test", fn.file,
-              stops[0].ln if stops else fn.lo, "the unwinder must stop (without running its defers) at the frame whose id equals the target label: " + detail)
+                    detail = ("at the comparison on line %d: defers of the visited frame compiled before the test=%s, equal case leaves the loop without popping or "
+                              "compiling more=%s, unequal case pops and continues=%s" % (c.ln, ran_first, leaves, goes_on))
+    run.check(good, "%s:%d" % (fn.file, stops[0].ln if stops else fn.lo), "unwinder runs the registered defers of every frame up to AND INCLUDING the target frame, then stops (target not popped)",
+              U, "stop-test", fn.file, stops[0].ln if stops else fn.lo,
+              "a jump to a scope must run the defers that scope has registered SO FAR (and only those): the unwinder has to compile the target frame's defers and then stop. " + detail)
 
     # S2: frames are left intact (they are left again, later, on the other paths)
     touched = []
@@ -354,27 +361,35 @@ def r03c(ctx, run):
     good = bool(via & {"last_mut"}) and not (via & {"first_mut", "get_mut", "index_mut", "iter_mut"}) and field_of_self(recv, "defer_stack") and own
     run.check(good, c.site(), "a reached defer is appended to the innermost frame (via %s)" % sorted(via), FC + "::compile_stmt", "register", c.file, c.ln,
               "Stmt::Defer must push its own expression onto the innermost frame's defers (receiver reached via %s, own expression: %s)" % (sorted(via), own))
-    # Block arm: the frame is popped and its defers are compiled in the block's exit block (so that they run once on every way of leaving it)
+    # Block arm: the block's own defers are compiled on the fall-through path, BEFORE the jumps to the exit block; the exit block (the
+    # target of every break/return to this block, registered in self.exits) compiles none - a jump can come from before a later
+    # `defer` statement, and an unreached defer must not run
     fn = F.fn(FC + "::compile_expr_with_args")
     own_sites = [(c, ch) for f2, c, nx, ch in sites if f2 is fn]
     if len(own_sites) != 1:
         raise LookupError("site compiling a block's own defers: %d" % len(own_sites))
     c, ch = own_sites[0]
-    pops = [x for x in chain_calls(ch) if short(x["callee"]) == "pop"]
     exit_creates = set()
     for ins in fn.calls():
         if short(ins.callee) == "insert" and ins.args and field_of_self(fn.chain_operand(ins.args[0], depth=5), "exits"):
             for x in chain_calls(fn.chain_operand(ins.args[2], depth=8)):
                 if short(x["callee"]) == "create_block":
                     exit_creates.add((x["ln"], x.get("bb")))
-    sw = []
-    for x in fn.calls():
-        if short(x.callee) == "switch_to_block" and len(x.args) >= 2 and fn.dominates(x.bb, c.bb):
-            if any(short(y["callee"]) == "create_block" and (y["ln"], y.get("bb")) in exit_creates for y in chain_calls(fn.chain_operand(x.args[1], depth=8))):
-                sw.append(x)
-    good = bool(pops) and bool(sw)
-    run.check(good, c.site(), "Block arm: the popped frame's defers are compiled after switching to the block's registered exit block", FC + "::compile_expr_with_args", "block-exit", c.file, c.ln,
-              "a block's own defers must be compiled in its exit block (the block registered in self.exits), from the frame popped off defer_stack: popped=%s, in exit block=%s" % (bool(pops), bool(sw)))
+    # the exit block of the Block arm: the registered create_block that dominates the site
+    mine = {(ln, bb) for ln, bb in exit_creates if bb is not None and fn.dominates(bb, c.bb)}
+
+    def refers(call, idx):
+        return len(call.args) > idx and any(short(y["callee"]) == "create_block" and (y["ln"], y.get("bb")) in mine for y in chain_calls(fn.chain_operand(call.args[idx], depth=8)))
+    in_exit = [x for x in fn.calls() if short(x.callee) == "switch_to_block" and refers(x, 1) and fn.dominates(x.bb, c.bb)]
+    jumps = [x for x in fn.calls() if short(x.callee) == "jump" and refers(x, 1)]
+    loops_of_c = [(h2, b2) for h2, b2 in fn.loops() if c.bb in b2]
+    hdr = min(loops_of_c, key=lambda hb: len(hb[1]))[0] if loops_of_c else c.bb
+    late = [x for x in jumps if not fn.dominates(hdr, x.bb)]
+    good = bool(mine) and not in_exit and bool(jumps) and not late
+    run.check(good, c.site(), "Block arm: own defers compiled on the fall-through path before each of the %d jumps to the exit block; the exit block compiles none" % len(jumps),
+              FC + "::compile_expr_with_args", "block-exit", c.file, c.ln,
+              "a block's own defers must run where the end of the block is reached (before jumping to the exit block), not in the exit block that every break/return "
+              "to the block jumps to: compiled inside the exit block=%s, fall-through jumps to the exit not preceded by the defers=%s" % (bool(in_exit), [x.ln for x in late]))
 
 
 def r03d(ctx, run):
